@@ -17,7 +17,8 @@ def _two_on_worker(b, opt=False):
 
 
 OBJECTIVES = ["none", "makespan", "flowtime", "priorities", "start_latest", "start_earliest", "greatest_start",
-              "min_expr", "max_expr", "min_bounded", "max_bounded", "cost", "two_min", "two_max", "two_min_w0", "max_buffer", "min_buffer"]
+              "min_expr", "max_expr", "min_bounded", "max_bounded", "cost", "two_min", "two_max", "two_min_w0", "max_buffer", "min_buffer",
+              "min_lateness", "min_tardiness", "min_earliness"]
 
 
 def add_objective(b, name, a, c, w=None):
@@ -48,6 +49,17 @@ def add_objective(b, name, a, c, w=None):
     elif name == "max_bounded":
         i = b.ind("IndicatorFromMathExpression", name="EB", expr=sub(const(b.p["H"]), start(a)), bounds=[0, b.p["H"]])
         b.obj("ObjectiveMaximizeIndicator", ind=i, kind="maximize", weight=1)
+    elif name in ("min_lateness", "min_tardiness", "min_earliness"):
+        # objectives over the due-date indicators (maximum lateness is SIGNED: its optimum is negative when every
+        # task can finish before its due date; tardiness / earliness are bounded below by 0)
+        H = b.p["H"]
+        for t, due in ((a, H), (c, H - 1)):
+            b.p["tasks"][t - 1]["due"] = [due]
+            b.p["tasks"][t - 1]["deadline"] = False
+        cls = {"min_lateness": "IndicatorMaximumLateness", "min_tardiness": "IndicatorTardiness",
+               "min_earliness": "IndicatorEarliness"}[name]
+        i = b.ind(cls, tasks=sorted({a, c}))
+        b.obj("ObjectiveMinimizeIndicator", ind=i, kind="minimize", weight=1)
     elif name in ("max_buffer", "min_buffer"):
         i = b.ind("IndicatorMaxBufferLevel", buffer=1, by_objective=True)
         b.obj("ObjectiveMaximizeMaxBufferLevel" if name == "max_buffer" else "ObjectiveMinimizeMaxBufferLevel", ind=i,
@@ -121,6 +133,8 @@ def pool(objectives, shapes=("plain", "optional", "select", "variable", "buffer"
             continue
         if on in ("max_buffer", "min_buffer") and shape != "buffer":
             continue
+        if on in ("min_lateness", "min_tardiness", "min_earliness") and shape in ("optional", "infeasible"):
+            continue   # (an extremum over an unscheduled task is an open corner)
         if on in ("two_min", "two_max", "two_min_w0") and shape == "single":
             continue
         add_objective(b, on, a, c, ws)
